@@ -4,19 +4,29 @@ CONF = dict(
     cmd='c15',
     props='Props/C15.v',
     glue='Extract/GlueC15.v',
-    rule=('three case kinds. rand.intn: crypto.RandIntn(n) with crypto/rand.Reader replaced by a scripted tape of 32-bit words: n in 1..12, 2^k-1/2^k/2^k+1, 3*2^k, MaxInt32-3..MaxInt32, '
+    rule=('five case kinds. rand.intn: crypto.RandIntn(n) with crypto/rand.Reader replaced by a scripted tape of 32-bit words: n in 1..12, 2^k-1/2^k/2^k+1, 3*2^k, MaxInt32-3..MaxInt32, '
           'above 2^31 up to MaxInt64 (64-bit branch, incl. odd word counts), n <= 0 (panic); words at, one below, one above and inside the rejection threshold 2^32 mod n, multiples '
           'of n, 0..3, 2^32-1..2^32-3, random; live and cancelled contexts. rand.sample: crypto.Sample(k, n) for k,n in -2..40 (k <, =, > n; 0) on tapes built per draw from the same word '
-          'classes, short tapes, cancelled contexts; the pick(dst, src) calls are recorded. mp.hist: histories of 2..10 rounds of the real client.MeasureClockOffsetSCION with 0..7 real '
-          'SCIONClients (interleaved mode enabled or not, with a recording filter or without) against a scripted SCION NTP peer on loopback that has one UDP socket per offered path '
-          '(= underlay next hop of that path; clients are told apart by their DSCP value): 0..12 offered paths per round with fingerprint ids from a small alphabet (equal fingerprints, the '
+          'classes, short tapes, cancelled contexts; the pick(dst, src) calls are recorded. mp.hist: histories of 2..10 rounds of the real client.MeasureClockOffsetSCION with 0..24 real '
+          'SCIONClients (interleaved mode enabled or not; with a recording filter or without one - such a client reports the raw offsets of its exchanges, which are taken from its debug log; '
+          'in one history in six some clients have Auth.NTSEnabled and fetch their keys from the peer\'s NTS-KE server over TLS) against a scripted SCION NTP peer on loopback that has one UDP socket per offered path '
+          '(= underlay next hop of that path; clients are told apart by their DSCP value): 0..128 offered paths per round (around the number of clients, or far more: 13, 40, 100, 128) with fingerprint ids from a small or a large alphabet (equal fingerprints, the '
           'metadata-less path with the empty fingerprint), paths withdrawn / added / duplicated / reordered / all withdrawn between rounds; per client and request the peer answers '
           'conformantly (basic, then interleaved), always in basic mode, or with a reply the client rejects; per client the filter returns scripted offsets (equal values, 0, '
           'int64 extremes); the random tape of every round is scripted (threshold words for the draws of that round). Recorded per round and client: next hops reached, filter '
           'resets, form of every request, filter results, InInterleavedMode()/InterleavedModePath() afterwards; result class, offset, words consumed. A rand.intn case is non-trivial '
           'when its first word is rejected; a rand.sample case when 0 < k < n; a history when it contains a kept path, a reset of a client that was in interleaved mode and a '
-          'round that consumed random words; distinct = distinct (kind, input)'),
+          'round that consumed random words (mp.pather: and a refresh); distinct = distinct (kind, input). '
+          'mp.pather: the same histories, but the path slice of every round is what the real scion.Pather (hook VerifNewPather/VerifUpdate = the unexported update) returns for the server\'s IA '
+          'after refreshes from a scripted daemon.Connector between rounds: 1..4 pairwise distinct destination IAs (the server\'s IA among them or not), per refresh LocalIA succeeds or fails, the lookup '
+          'of each IA succeeds or fails, path sets change between refreshes (paths withdrawn, added, duplicated fingerprints, reordered, all withdrawn, up to 128), rounds without a refresh in between '
+          '(the slice handed out must be a copy: the round overwrites it), lookups with another source IA than the local one or without the refresh flag are refused / tagged; '
+          'recorded per round: the (next hop, fingerprint) list Paths() returned and the round as in mp.hist; judged against the paths the daemon last reported. '
+          'mp.pather.dupia: the same with the server\'s IA listed two or three times among the destinations (two configured servers/peers in one AS)'),
     assumptions=['paths are identified by their index in the offered slice; at most MaxInt64 paths',
+                 'Pather: the destination IAs it is started with are pairwise distinct (theorems C15_pather_offers_daemon_paths / _distinct / _oracle_holds_for_model; without it the model and the code offer every path once per occurrence: kind mp.pather.dupia) and the daemon reports each path once per lookup; a failing lookup counts as no paths, a refresh whose LocalIA fails changes nothing; wildcard destinations (update panics) are not driven',
+                 'a client without a filter reports the raw offset of its exchange: the model is given the observed offsets of such clients (their number, the request forms, the state and the midpoint are checked)',
+                 'NTS is transparent to the path assignment: an NTS client differs only in the exchange (authenticated by the scripted peer with the keys of its NTS-KE session); server in another AS than the client (a server in the own AS makes an NTS client replace its path by the direct one)',
                  'the random generator is any finite list of 32-bit words followed by a constant word (every eventually constant stream); a constant tail that is always rejected makes the model answer Hang',
                  'within a history the previous exchange of a client is less than 3 s old and the server is the same (the harness ends a history with the round that finishes more than 2 s after the history began; a history normally takes about 10 ms)',
                  'a participant whose exchanges all fail contributes nothing to the midpoint (FaultTolerantMidpoint over ms[:n], n = successes collected); no successful measurement at all gives errNoMeasurement',
@@ -24,23 +34,24 @@ CONF = dict(
                  'timestamps of the reported measurement are not modelled (only the offset and the error)'],
     trusted=['modelled, not verified: crypto/rand.Read (reads len(b) bytes from rand.Reader), snet.Fingerprint (equal metadata interfaces <=> equal fingerprint, empty for no metadata), '
              'slices.SortFunc inside measurements.FaultTolerantMidpoint (a sorted permutation, see C02), goroutines/channels of the collection step (every participant sends exactly one Measurement)',
-             'the scripted SCION NTP peer of the harness (gopacket/slayers encoding of replies with an empty SCION path) and the kernel UDP loopback'],
+             'the scripted SCION NTP peer of the harness (gopacket/slayers encoding of replies with an empty SCION path; NTS replies built with nts.ProcessRequest/NewResponsePacket, NTS-KE records over crypto/tls), the scripted daemon.Connector, and the kernel UDP loopback (IPv4, and IPv6 ::1 for histories with NTS clients)'],
     technique=('Coq proofs over a Gallina model of crypto.RandIntn/Sample and of MeasureClockOffsetSCION: permutation invariant of the sticky loop with swap-remove, reservoir invariant '
                '(slots hold distinct earlier candidates, sources strictly increase) by induction over the pick list for every tape, counting of residue classes of accepted words by '
                'Euclidean division (nia), permutation invariance of the fault-tolerant midpoint, counting of enumerated draw vectors by induction over the draws, generalised over the reservoir state (a k-subset T with t members still to come is reached by t! (n-k)!/(i-k+t)! of the vectors from draw i on), giving (n-k)! vectors per k-subset, and the per-candidate inclusion probability k/n; '
+               'a functional model of the Pather (association list in destination order) with the theorem that for distinct destinations Paths() is the last reported answer after any refresh sequence, and transfer of the round oracle from positions to path identities; '
                'the oracle is proved to accept every round of the model; differential execution of the extracted model against the real functions on scripted tapes and against the '
-               'real MeasureClockOffsetSCION over loopback SCION exchanges'),
+               'real MeasureClockOffsetSCION (fed directly or through the real Pather) over loopback SCION exchanges'),
     level_text=('Theorems hold for all numbers of clients and offered paths, all client states (in interleaved mode or not, previous path present / withdrawn / shared with other clients / '
                 'duplicated among the offered paths), all tapes and all completion orders; near-uniformity of RandIntn for all 2 <= n < 2^31; reservoir uniformity is proved per subset '
                 '(with exact uniform draws every k-subset of the n candidates is selected by exactly (n-k)! of the n!/k! draw vectors, for all k <= n; the statement is about the set of '
                 'selected candidates, the slot order is not uniform) and per candidate (inclusion probability exactly k/n). The model is tied to the code on every run by replaying generated histories on the '
                 'real MeasureClockOffsetSCION with real SCION clients and by comparing RandIntn/Sample with the model on scripted tapes; the C15 oracle is evaluated on the implementation\'s observations'),
-    level_note=('Trusted: Coq kernel, hand-written model validated by the correspondence run, extraction, harness incl. its scripted peer. No hook needed (exported API, replaced rand.Reader, '
-                'recording filter, DSCP as client tag). No axioms. The earlier behaviour (failed participants counted as offset 0, all-fail round = offset 0 without error) was noticed while this check was built; /repo fixed it in 3dfc5bf; its reverse is one of the regression mutants.'),
+    level_note=('Trusted: Coq kernel, hand-written model validated by the correspondence run, extraction, harness incl. its scripted peer. Hook: /repo/net/scion/hooks_verif.go (VerifNewPather, VerifUpdate: a Pather without the 15 s ticker and one call of the unexported update); otherwise exported API, replaced rand.Reader, '
+                'recording filter, DSCP as client tag. No axioms. The earlier behaviour (failed participants counted as offset 0, all-fail round = offset 0 without error) was noticed while this check was built; /repo fixed it in 3dfc5bf; its reverse is one of the regression mutants.'),
     explanation=('oracle clauses per round: every client reaches at most one next hop, all reached hops are offered and pairwise distinct; participants = min(clients, paths); going through the '
                  'clients in order a client in interleaved mode keeps a path with the fingerprint of its previous exchange iff one is still available (then no filter reset, first request '
                  'in interleaved form), otherwise its filter is reset once and its first request is in basic form; errNoPath iff nobody can take part; offset = fault-tolerant midpoint '
-                 'over the last filter results of the participants that measured something; errNoMeasurement iff none did. rand.intn: result in [0,n) and congruent to the accepted word; rand.sample: min(k,n) slots filled from distinct candidates'),
+                 'over the last filter results of the participants that measured something; errNoMeasurement iff none did. mp.pather: the same clauses with `offered` = the paths the scripted daemon last reported for the server\'s IA (the observed next hops are translated into positions in that list, an unknown next hop is rejected), so a path handed out twice, a stale or a missing path shows as two clients on one path / too many / too few participants. rand.intn: result in [0,n) and congruent to the accepted word; rand.sample: min(k,n) slots filled from distinct candidates'),
     timeout_quick=900, timeout_thorough=3000,
-    min_cases={'mp.hist': 900, 'rand.intn': 9000, 'rand.sample': 3000},
+    min_cases={'mp.hist': 900, 'mp.pather': 450, 'mp.pather.dupia': 45, 'rand.intn': 9000, 'rand.sample': 3000},
 )
